@@ -426,7 +426,7 @@ robust against renaming of locals, single-use temporaries, else-after-return, do
 
 /-- `MassAction.active_conc_prod` (chempy/kinetics/rates.py) is — up to the normalisation of tools/extract/ratessrc.py — the code the hand model was written from -/
 theorem massActionConcProd_guard : Gen.srcMassActionConcProd =
-    "def(self, variables, backend=math, reaction=None): v0 = 1; for v1, v2 in reaction.reac.items(): v0 *= variables[v1] ** v2; return v0" := rfl
+    "def(self, variables, backend=math, reaction=None): v0 = 1; for v1, v2 in reaction.reac.items(): v0 = v0 * variables[v1] ** v2; return v0" := rfl
 
 /-- `MassAction.rate_coeff` (chempy/kinetics/rates.py) is — up to the normalisation of tools/extract/ratessrc.py — the code the hand model was written from -/
 theorem massActionRateCoeff_guard : Gen.srcMassActionRateCoeff =
